@@ -101,16 +101,17 @@ impl TryFrom<&str> for FeelYearsAndMonthsDuration {
   fn try_from(value: &str) -> Result<Self, Self::Error> {
     if let Some(captures) = RE_YEARS_AND_MONTHS.captures(value) {
       let mut is_valid = false;
-      let mut total_months = 0_i64;
+      // the total is calculated in wider integers, durations that exceed the representable range are not valid
+      let mut total_months = 0_i128;
       if let Some(years_match) = captures.name("years") {
         if let Ok(years) = years_match.as_str().parse::<u64>() {
-          total_months += (years as i64) * MONTHS_IN_YEAR;
+          total_months += (years as i128) * (MONTHS_IN_YEAR as i128);
           is_valid = true;
         }
       }
       if let Some(months_match) = captures.name("months") {
         if let Ok(months) = months_match.as_str().parse::<u64>() {
-          total_months += months as i64;
+          total_months += months as i128;
           is_valid = true;
         }
       }
@@ -118,7 +119,9 @@ impl TryFrom<&str> for FeelYearsAndMonthsDuration {
         total_months = -total_months;
       }
       if is_valid {
-        return Ok(FeelYearsAndMonthsDuration(total_months));
+        if let Ok(total_months) = i64::try_from(total_months) {
+          return Ok(FeelYearsAndMonthsDuration(total_months));
+        }
       }
     }
     Err(err_invalid_years_and_months_duration_literal(value))
